@@ -269,13 +269,19 @@ def unique_labels(body):
 
 
 def insert_noise(rng, body, k=1):
-    """Insert k statements that declare nothing and jump nowhere (nested empty blocks, empty if / if-else) at random
-    places of the body, also inside nested blocks. The verdict on labels and variables must not depend on them."""
+    """Insert k statements that jump nowhere and declare nothing the body uses (nested empty blocks, empty if / if-else,
+    an array variable of a fresh name initialised from an array literal) at random places of the body, also inside nested
+    blocks. The verdict on labels and on the body's own variables must not depend on them."""
     import copy
     body = copy.deepcopy(body)
     noise = [("block", [("block", [])]), ("block", []), ("if", cond_true(), ("block", []), None),
              ("if", cond_false(), ("block", [("block", [])]), ("block", [])), ("block", [("block", [("block", [])])]),
              ("if", cond_true(), ("block", [("if", cond_false(), ("block", []), None)]), None)]
+
+    # an array literal opens a scope of its own in the scoper: a variable of a fresh name initialised from one
+    arr = ("a", 2, I32)
+    noise.append(("var", None, arr, ("arr", arr, [X, lit(1)])))
+    noise.append(("var", None, arr, ("arr", arr, [lit(2), lit(3)])))
 
     def lists(stmts, acc):
         acc.append(stmts)
@@ -286,8 +292,11 @@ def insert_noise(rng, body, k=1):
                 lists(lst, acc)
         return acc
 
-    for _ in range(k):
+    for _n in range(k):
         all_lists = lists(body, [])
         target = rng.choice(all_lists)
-        target.insert(rng.randrange(len(target) + 1), rng.choice(noise))
+        st = rng.choice(noise)
+        if st[0] == "var":
+            st = ("var", "nz%d" % _n, st[2], st[3])      # a name of its own for every inserted declaration
+        target.insert(rng.randrange(len(target) + 1), st)
     return body
